@@ -2,6 +2,7 @@ package main
 
 import (
 	"fmt"
+	"go/constant"
 	"go/token"
 	"go/types"
 	"math/big"
@@ -550,6 +551,38 @@ func (a *fnA) condFacts(cond ssa.Value, truth bool, p *ssa.BasicBlock, idx int, 
 		if c.Op == token.NOT {
 			a.condFacts(c.X, !truth, p, idx, into)
 		}
+	case *ssa.Phi:
+		// a materialised x && y (or x || y): the φ has the wanted truth value
+		// only through its one edge that is not the opposite constant, so that
+		// edge's value has it too, and so do the branches of the single-entry
+		// chain of blocks that leads to the edge.
+		cand := -1
+		for i, e := range c.Edges {
+			if k, isK := e.(*ssa.Const); isK && k.Value != nil && k.Value.Kind() == constant.Bool && constant.BoolVal(k.Value) != truth {
+				continue
+			}
+			if cand >= 0 {
+				return
+			}
+			cand = i
+		}
+		if cand < 0 || a.condDepth > 6 {
+			return
+		}
+		a.condDepth++
+		defer func() { a.condDepth-- }()
+		a.condFacts(c.Edges[cand], truth, p, idx, into)
+		cur := c.Block().Preds[cand]
+		if iff, ok := cur.Instrs[len(cur.Instrs)-1].(*ssa.If); ok && cur.Succs[0] != cur.Succs[1] {
+			a.condFacts(iff.Cond, cur.Succs[0] == c.Block(), p, idx, into)
+		}
+		for n := 0; n < 8 && len(cur.Preds) == 1; n++ {
+			q := cur.Preds[0]
+			if iff, ok := q.Instrs[len(q.Instrs)-1].(*ssa.If); ok && q.Succs[0] != q.Succs[1] {
+				a.condFacts(iff.Cond, q.Succs[0] == cur, p, idx, into)
+			}
+			cur = q
+		}
 	case *ssa.BinOp:
 		op := c.Op
 		if !truth {
@@ -788,6 +821,13 @@ func (a *fnA) seedPhiCandidates() {
 			case *ssa.IndexAddr:
 				if isSliceLike(x.X.Type()) {
 					addSrc(x.X)
+				}
+			case *ssa.Call:
+				// what a callee is handed bounds what it reports as consumed
+				for _, arg := range x.Common().Args {
+					if isSliceLike(arg.Type()) {
+						addSrc(arg)
+					}
 				}
 			case *ssa.Lookup:
 				if isSliceLike(x.X.Type()) {
